@@ -8,9 +8,9 @@ use crate::with_spec;
 
 pub const RULE: &str = "(specification, bytes, configuration, call script): bytes from the reader mix weighted towards mutations, random bytes and adversarial headers (zero-length numeric elements, 8-byte ids/sizes, \
 all-ones sizes of every width, sizes near 2^56, 0x00 first bytes); configuration = tolerance subset × buffered subset × capacity 0..=64/len±1/default × size limit {16, 4096, 2^20, default, None} × end-of-stream closing on/off; \
-script = interleaving of next() and try_recover() (try_recover mostly right after an error, sometimes at arbitrary points) over a scripted source with short reads and optionally one injected io::Error(Other, \"inj-k\"). \
+script = interleaving of next() and try_recover() (try_recover mostly right after an error, sometimes at arbitrary points) over a scripted source with short reads and optionally an injected io::Error(Other, \"inj-k\") — once, or (a third of the injections) on every read from then on. \
 Oracle: no call panics; successful items <= 4·len + 64 (calls capped at 8× that: exceeding = non-termination); once next() returns None with the source exhausted, three further calls return None; try_recover fails only with UnexpectedEOF/ReadError \
-and never moves backwards (first non-End item after it has a larger offset than the last before it); the first Err after an injected source error is ReadError carrying kind Other and the injected message, with no None before it. \
+and never moves backwards (first non-End item after it has a larger offset than the last before it); the first Err after an injected source error is ReadError carrying kind Other and the injected message, with no None before it; the first element emitted after a transient failure lies behind the last one emitted before it (nothing is read twice); the item bound holds under a source that keeps failing. \
 Non-trivial: >= 1 successful item and >= 1 of {error returned, try_recover called, injected error}; distinct by (bytes, configuration, script).";
 
 pub const ASSUMPTIONS: &[&str] = &[
